@@ -95,6 +95,9 @@ class Gen:
         self.kinds = kinds
         self.created = 0
         self.removed_handles = []  # (type localname, handle, parent) of deleted top descriptors for re-creation
+        self.cache = {}  # handle -> entity object fetched after an earlier operation ("stale" entities the app kept)
+        self.p_stale = 0.0
+        self.retry = None  # copy of the operation that was aborted last (see gen_op)
 
     # ---- helpers
     def _states_by_tt(self, tt):
@@ -171,7 +174,12 @@ class Gen:
         for st in chosen:
             muts = self._gen_state_muts(st)
             items.append({'h': st.DescriptorHandle, 'muts': muts})
-        return {'k': 'state', 'tt': tt, 'iface': rng.choice(['classic', 'classic', 'entity']), 'items': items}
+        op = {'k': 'state', 'tt': tt, 'iface': rng.choice(['classic', 'classic', 'entity']), 'items': items}
+        if self.p_stale and op['iface'] == 'entity':
+            for it in items:
+                if it['h'] in self.cache and rng.random() < 0.8:
+                    it['stale'] = True
+        return op
 
     def gen_context_op(self):
         rng = self.rng
@@ -220,6 +228,7 @@ class Gen:
         m = self.m
         steps = []
         touched = set()
+        force_entity = False
         nsteps = 1 if rng.random() < 0.55 else rng.randint(2, 3)
         for _ in range(nsteps):
             a = rng.choice(['update', 'update', 'update', 'create', 'create', 'delete', 'recreate'])
@@ -230,6 +239,13 @@ class Gen:
                 if not cands:
                     continue
                 d = rng.choice(cands)
+                if self.p_stale and rng.random() < 0.5:
+                    # prefer a descriptor of which the application still holds an outdated entity
+                    outdated = [x for x in cands if x.Handle in self.cache
+                                and self.cache[x.Handle].descriptor.DescriptorVersion != x.DescriptorVersion]
+                    if outdated:
+                        d = rng.choice(outdated)
+                        force_entity = True
                 # sometimes update parent and child in one transaction
                 muts = self._gen_descr_muts(d)
                 with_state = rng.random() < 0.4
@@ -242,6 +258,8 @@ class Gen:
                         with_state = False
                 touched.add(d.Handle)
                 steps.append({'a': 'update', 'h': d.Handle, 'muts': muts, 'with_state': with_state, 'state_muts': smuts})
+                if self.p_stale and d.Handle in self.cache and rng.random() < 0.8:
+                    steps[-1]['stale'] = True  # only has an effect with the entity interface
                 if rng.random() < 0.3:
                     rel = [x for x in cands if (x.parent_handle == d.Handle or x.Handle == d.parent_handle)
                            and x.Handle not in touched]
@@ -303,6 +321,8 @@ class Gen:
         if not steps:
             return None
         iface = rng.choice(['classic', 'classic', 'entity'])
+        if force_entity:
+            iface = 'entity'
         if rng.random() < 0.3:
             rng.shuffle(steps)  # e.g. child before parent
         return {'k': 'descr', 'iface': iface, 'steps': steps}
@@ -346,12 +366,17 @@ class Gen:
                         'with_state': self.rng.random() < 0.85}
         return None
 
-    def gen_op(self, kinds=None):
+    def gen_op(self, kinds=None, p_abort=0.0):
+        """p_abort: probability that the operation carries a crash point ('abort_at'); the model then does not apply it"""
         rng = self.rng
         kinds = kinds or self.kinds or ['state'] * 6 + ['context'] * 2 + ['descr'] * 3 + ['empty']
         for _ in range(10):
             k = rng.choice(kinds)
-            if k == 'state':
+            if p_abort and self.retry is not None and rng.random() < 0.6:
+                # the application retries the operation that was aborted just before
+                op, self.retry = self.retry, None
+                k = None
+            elif k == 'state':
                 op = self.gen_state_op()
             elif k in STATE_TT:
                 op = self.gen_state_op(k)
@@ -365,11 +390,23 @@ class Gen:
                 raise ValueError(k)
             if op is None:
                 continue
+            if p_abort and k is not None and rng.random() < p_abort:
+                op['abort_at'] = rng.randrange(body_steps(op))
+            if self.p_stale and rng.random() < self.p_stale:
+                hs = sorted(d.Handle for d in self.m.descriptions.objects)
+                op['prefetch'] = rng.sample(hs, min(len(hs), rng.randint(2, 8)))
             # apply to the model; drop operations the model rejects
             try:
-                apply_op(self.m, op)
+                apply_op(self.m, op, Env(crash_at=op.get('abort_at'), cache=self.cache))
             except OpRejected:
                 continue
+            except InjectedCrash:
+                self.retry = {kk: copy.deepcopy(vv) for kk, vv in op.items() if kk not in ('abort_at', 'id', 'prefetch')}
+                # the model is unchanged; handles whose re-creation was aborted can be re-created later
+                if op['k'] == 'descr':
+                    for st in op['steps']:
+                        if st['a'] == 'create' and not st['h'].startswith('new'):
+                            self.removed_handles.append((st['type'], st['h'], st['parent']))
             self.n += 1
             op['id'] = self.n
             return op
@@ -380,8 +417,11 @@ class Gen:
 class Env:
     """hooks for the executor: step() is called between the API steps of a transaction body"""
 
-    def __init__(self, crash_at=None, on_handout=None):
+    def __init__(self, crash_at=None, on_handout=None, cache=None):
+        self.cache = cache  # handle -> entity kept from an earlier operation (None: never use stale entities)
         self.crash_at = crash_at
+        self.stale_used = 0
+        self.stale_outdated = 0
         self.j = 0
         self.on_handout = on_handout  # callable(kind, obj) for isolation probes
         self.pre_commit = None  # callable(mgr) executed as the last statement of the transaction body
@@ -441,6 +481,32 @@ def apply_op(mdib, op, env: Env | None = None):
         if in_body[0]:
             raise OpRejected(f'{type(ex).__name__}: {ex}') from ex
         raise
+    finally:
+        if op.get('prefetch') and env.cache is not None:
+            for h in op['prefetch']:
+                try:
+                    ent = mdib.entities.by_handle(h)
+                except rej:
+                    ent = None
+                if ent is not None:
+                    env.cache[h] = ent
+
+
+def _get_ent(mdib, h, stale, env):
+    """entity for a write: a fresh one, or (stale) the object the application fetched after an earlier operation;
+    called inside the transaction (mdib lock held)"""
+    if stale and env.cache is not None and h in env.cache:
+        if mdib.descriptions.handle.get_one(h, allow_none=True) is None:
+            raise KeyError(h)  # the application would not write an entity that was deleted meanwhile
+        env.stale_used += 1
+        ent = env.cache[h]
+        if ent.descriptor.DescriptorVersion != mdib.descriptions.handle.get_one(h).DescriptorVersion:
+            env.stale_outdated += 1
+        return ent
+    ent = mdib.entities.by_handle(h)
+    if ent is None:
+        raise KeyError(h)
+    return ent
 
 
 def _apply_state(mdib, op, env, in_body):
@@ -450,9 +516,7 @@ def _apply_state(mdib, op, env, in_body):
         if op.get('iface') == 'entity':
             ents = []
             for it in op['items']:
-                ent = mdib.entities.by_handle(it['h'])
-                if ent is None:
-                    raise KeyError(it['h'])
+                ent = _get_ent(mdib, it['h'], it.get('stale'), env)
                 env.handout('entity', ent.state)
                 apply_muts(ent.state, it['muts'])
                 ents.append(ent)
@@ -524,9 +588,7 @@ def _apply_descr(mdib, op, env, in_body):
         for s in op['steps']:
             if s['a'] == 'update':
                 if entity:
-                    ent = mdib.entities.by_handle(s['h'])
-                    if ent is None:
-                        raise KeyError(s['h'])
+                    ent = _get_ent(mdib, s['h'], s.get('stale'), env)
                     env.handout('entity', ent.descriptor)
                     apply_muts(ent.descriptor, s['muts'])
                     if s.get('with_state') and not ent.is_multi_state:
